@@ -23,6 +23,7 @@ package signaling
 
 import (
 	"encoding/base64"
+	"errors"
 	"fmt"
 
 	"github.com/gorilla/securecookie"
@@ -52,6 +53,8 @@ const (
 	privateSessionName = "private-session"
 	publicSessionName  = "public-session"
 )
+
+var errSessionIdNotCanonical = errors.New("session id is not in canonical form")
 
 type SessionIdCodec struct {
 	cookie *securecookie.SecureCookie
@@ -97,7 +100,20 @@ func (c *SessionIdCodec) EncodePublic(sessionData *SessionIdData) (string, error
 	return reverseSessionId(encoded)
 }
 
+// isCanonicalBase64 checks that s is exactly the string the encoder generates
+// for the bytes it decodes to. The decoder ignores line breaks and unused
+// trailing bits, so without this check different strings would be accepted
+// as the same session id.
+func isCanonicalBase64(s string) bool {
+	decoded, err := base64.URLEncoding.DecodeString(s)
+	return err == nil && base64.URLEncoding.EncodeToString(decoded) == s
+}
+
 func (c *SessionIdCodec) DecodePrivate(encodedData string) (*SessionIdData, error) {
+	if !isCanonicalBase64(encodedData) {
+		return nil, errSessionIdNotCanonical
+	}
+
 	var data SessionIdData
 	if err := c.cookie.Decode(privateSessionName, encodedData, &data); err != nil {
 		return nil, err
@@ -107,6 +123,10 @@ func (c *SessionIdCodec) DecodePrivate(encodedData string) (*SessionIdData, erro
 }
 
 func (c *SessionIdCodec) DecodePublic(encodedData string) (*SessionIdData, error) {
+	if !isCanonicalBase64(encodedData) {
+		return nil, errSessionIdNotCanonical
+	}
+
 	encodedData, err := reverseSessionId(encodedData)
 	if err != nil {
 		return nil, err
